@@ -24,7 +24,10 @@ package main
 // 16 MiB spill threshold and put the buffered writer's sizes on the transcript.
 
 import (
+	"archive/zip"
 	"bytes"
+	"encoding/xml"
+	"io"
 	"encoding/hex"
 	"fmt"
 	"math"
@@ -291,6 +294,7 @@ type c11Case struct {
 	rowsSeen []int
 	colsSeen map[int]bool
 	merges   int
+	x14      bool
 	mrects   [][4]int
 	table    bool
 	flushed  bool
@@ -684,16 +688,23 @@ func (c *c11Case) exec(line string) {
 		c.r.Op("reader", c.stateLine(c11res(err))+" rh="+c11fnv(b))
 		r.Stat("op:reader")
 	case "flush":
-		post1 := xl.VerifC11Fields(c.sw, 8, 15)
-		post2 := xl.VerifC11Fields(c.sw, 17, 38)
-		post3 := xl.VerifC11Fields(c.sw, 40, 40)
+		// per-field rendering of xlsxWorksheet (index 0 = the mutex … 42), what bulkAppendFields(ws, i, i) writes
+		fields := make([]string, 43)
+		if c.emit {
+			for i := range fields {
+				fields[i] = "-"
+				if i >= 8 { // 0 is the unexported mutex; 1..7 are written before the rows
+					fields[i] = c11hexb(xl.VerifC11Fields(c.sw, i, i))
+				}
+			}
+		}
 		st, _ := xl.VerifC11Snapshot(c.sw, false)
 		err, pan := guard("Flush", func() error { return c.sw.Flush() })
 		if pan {
 			return
 		}
 		c.flushed = true
-		c.op(fmt.Sprintf("flush %s %s %s %s", c11hexb(post1), c11hexb(post2), hx(st.TableParts), c11hexb(post3)), c11res(err))
+		c.op("flush "+hx(st.TableParts)+" "+strings.Join(fields, " "), c11res(err))
 		c.opBW("bwflush")
 		r.Stat("op:flush:" + c11res(err))
 		if err != nil {
@@ -702,6 +713,204 @@ func (c *c11Case) exec(line string) {
 	}
 }
 
+
+// ---------------------------------------------------------------- cell element trees
+
+// c11cellTrees parses a worksheet part and returns the canonical text of every <c> element that has more than
+// a reference (the others are dropped by a load/save cycle): c[k=hex;…]{f[]{#hex};v[]{#hex};is[]{t[…]{#hex};R}}
+func c11cellTrees(part []byte) ([]string, error) {
+	dec := xml.NewDecoder(bytes.NewReader(part))
+	attrs := func(as []xml.Attr) string {
+		p := []string{}
+		for _, a := range as {
+			n := a.Name.Local
+			if a.Name.Space != "" {
+				if a.Name.Local == "space" {
+					n = "xml:space"
+				} else {
+					n = a.Name.Space + ":" + a.Name.Local
+				}
+			}
+			p = append(p, n+"="+hx(a.Value))
+		}
+		return "[" + strings.Join(p, ";") + "]"
+	}
+	// text element: name[attrs]{#hex}
+	var textElem func(se xml.StartElement) (string, error)
+	textElem = func(se xml.StartElement) (string, error) {
+		var txt strings.Builder
+		for {
+			tok, err := dec.Token()
+			if err != nil {
+				return "", err
+			}
+			switch t := tok.(type) {
+			case xml.CharData:
+				txt.Write(t)
+			case xml.StartElement:
+				if err := dec.Skip(); err != nil {
+					return "", err
+				}
+				txt.WriteString("<?>")
+			case xml.EndElement:
+				body := ""
+				if txt.Len() > 0 {
+					body = "#" + hx(txt.String())
+				}
+				return se.Name.Local + attrs(se.Attr) + "{" + body + "}", nil
+			}
+		}
+	}
+	var out []string
+	for {
+		tok, err := dec.Token()
+		if err == io.EOF {
+			return out, nil
+		}
+		if err != nil {
+			return out, err
+		}
+		se, ok := tok.(xml.StartElement)
+		if !ok || se.Name.Local != "c" {
+			continue
+		}
+		kids := []string{}
+	cell:
+		for {
+			tok, err := dec.Token()
+			if err != nil {
+				return out, err
+			}
+			switch t := tok.(type) {
+			case xml.EndElement:
+				break cell
+			case xml.StartElement:
+				if t.Name.Local != "is" {
+					k, err := textElem(t)
+					if err != nil {
+						return out, err
+					}
+					kids = append(kids, k)
+					continue
+				}
+				ik := []string{}
+				runs := false
+			is:
+				for {
+					tok, err := dec.Token()
+					if err != nil {
+						return out, err
+					}
+					switch u := tok.(type) {
+					case xml.EndElement:
+						break is
+					case xml.StartElement:
+						if u.Name.Local == "t" {
+							k, err := textElem(u)
+							if err != nil {
+								return out, err
+							}
+							ik = append(ik, k)
+						} else {
+							if !runs {
+								ik = append(ik, "R")
+								runs = true
+							}
+							if err := dec.Skip(); err != nil {
+								return out, err
+							}
+						}
+					}
+				}
+				kids = append(kids, "is[]{"+strings.Join(ik, ";")+"}")
+			}
+		}
+		if len(se.Attr) == 1 && se.Attr[0].Name.Local == "r" && len(kids) == 0 {
+			continue
+		}
+		out = append(out, "c"+attrs(se.Attr)+"{"+strings.Join(kids, ";")+"}")
+	}
+}
+
+var c11attrGroup = regexp.MustCompile(`\[[^\]]*\]`)
+
+func c11sheetPart(zipped []byte) ([]byte, error) {
+	zr, err := zip.NewReader(bytes.NewReader(zipped), int64(len(zipped)))
+	if err != nil {
+		return nil, err
+	}
+	for _, f := range zr.File {
+		if f.Name == "xl/worksheets/sheet1.xml" {
+			rc, err := f.Open()
+			if err != nil {
+				return nil, err
+			}
+			defer rc.Close()
+			return io.ReadAll(rc)
+		}
+	}
+	return nil, fmt.Errorf("no sheet part")
+}
+
+// trees: the <c> elements as writeCell wrote them (A) and as encoding/xml marshals the xlsxC records decoded from
+// them (B, after a load/save cycle); oracle: the two denote the same elements; transcript: both against the model.
+func (c *c11Case) trees() {
+	var z1 bytes.Buffer
+	if err := c.sf.Write(&z1); err != nil {
+		return
+	}
+	a, err := c11sheetPart(z1.Bytes())
+	if err != nil {
+		return
+	}
+	g, err := xl.OpenReader(bytes.NewReader(z1.Bytes()))
+	if err != nil {
+		return // reported by compare()
+	}
+	defer g.Close()
+	if _, err := g.GetCellValue(c11Sheet, "A1"); err != nil { // loads the worksheet, so that saving marshals it again
+		return
+	}
+	var z2 bytes.Buffer
+	if err := g.Write(&z2); err != nil {
+		c.fail("celltree:resave", fmt.Sprintf("saving the reopened stream-built workbook: %v", err), 0)
+		return
+	}
+	b, err := c11sheetPart(z2.Bytes())
+	if err != nil {
+		return
+	}
+	ta, e1 := c11cellTrees(a)
+	tb, e2 := c11cellTrees(b)
+	if e1 != nil || e2 != nil {
+		c.fail("celltree:parse", fmt.Sprintf("parsing the worksheet part: streamed %v, re-marshalled %v", e1, e2), 0)
+		return
+	}
+	ln := 0
+	if c.emit {
+		ln = c.r.Op("trees", fmt.Sprintf("n=%d w=%s m=%s", len(ta), c11fnv([]byte(strings.Join(ta, "\n"))), c11fnv([]byte(strings.Join(tb, "\n")))))
+	}
+	c.r.Stats["celltrees-compared"] += len(ta)
+	if len(ta) != len(tb) {
+		c.fail("celltree:marshal-differs", fmt.Sprintf("writeCell wrote %d cells, the marshaller %d after a load/save cycle", len(ta), len(tb)), ln)
+		return
+	}
+	// the oracle compares elements with their attributes as a finite map (order is not part of the infoset);
+	// the transcript above keeps the document order
+	sortAttrs := func(t string) string {
+		return c11attrGroup.ReplaceAllStringFunc(t, func(g string) string {
+			p := strings.Split(g[1:len(g)-1], ";")
+			sort.Strings(p)
+			return "[" + strings.Join(p, ";") + "]"
+		})
+	}
+	for i := range ta {
+		if sortAttrs(ta[i]) != sortAttrs(tb[i]) {
+			c.fail("celltree:marshal-differs", fmt.Sprintf("cell %d: writeCell %s, encoding/xml %s", i, c11short(ta[i]), c11short(tb[i])), ln)
+			return
+		}
+	}
+}
 
 // ---------------------------------------------------------------- comparison
 
@@ -984,6 +1193,26 @@ func (c *c11Case) compare() {
 	if e1 != nil || e2 != nil || tc(t1) != tc(t2) {
 		c.fail("table:list", fmt.Sprintf("tables: stream [%s] (%v), in-memory [%s] (%v)", tc(t1), e1, tc(t2), e2), 0)
 	}
+	// conditional formats set on the worksheet before the stream writer was created
+	if c.x14 {
+		f1, e1 := sg.GetConditionalFormats(c11Sheet)
+		f2, e2 := mg.GetConditionalFormats(c11Sheet)
+		keys := func(m map[string][]xl.ConditionalFormatOptions) string {
+			ks := []string{}
+			for k, v := range m {
+				ks = append(ks, fmt.Sprintf("%s:%+v", k, v))
+			}
+			sort.Strings(ks)
+			return strings.Join(ks, " | ")
+		}
+		if e1 != nil || e2 != nil || keys(f1) != keys(f2) {
+			sig := "sheet:condfmt"
+			if len(f1) == len(f2) && e1 == nil && e2 == nil {
+				sig = "sheet:condfmt-x14-ext" // same rules, the extLst half (x14 data bar attributes) differs
+			}
+			c.fail(sig, fmt.Sprintf("conditional formats: stream {%s} (%v), in-memory {%s} (%v)", keys(f1), e1, keys(f2), e2), 0)
+		}
+	}
 }
 
 // c11RunCase executes one script. Returns the case for statistics.
@@ -1015,6 +1244,15 @@ func c11RunCase(r *Run, lines []string) *c11Case {
 		}
 		c.styles = append(c.styles, a)
 	}
+	if len(hdr) > 3 && hdr[3] == "x14" {
+		// worksheet settings made before the stream writer is created: conditional formats incl. an x14 data bar
+		// (lives in the worksheet's extLst) — the stream writer carries the worksheet's fields over by reflection
+		c.x14 = true
+		for _, f := range []*xl.File{c.sf, c.mf} {
+			_ = f.SetConditionalFormat(c11Sheet, "A1:A3", []xl.ConditionalFormatOptions{{Type: "data_bar", Criteria: "=", MinType: "num", MaxType: "num", MinValue: "0", MaxValue: "10", BarColor: "#638EC6", BarBorderColor: "#0000FF", BarSolid: true}})
+			_ = f.SetConditionalFormat(c11Sheet, "B1:B3", []xl.ConditionalFormatOptions{{Type: "top", Criteria: "=", Value: "2"}})
+		}
+	}
 	sw, err := c.sf.NewStreamWriter(c11Sheet)
 	if err != nil {
 		c.fail("new:error", fmt.Sprintf("NewStreamWriter: %v", err), 0)
@@ -1044,6 +1282,9 @@ func c11RunCase(r *Run, lines []string) *c11Case {
 			r.Stat("case:in-memory")
 		}
 		r.Stats["bytes-streamed"] += st.TmpLen + st.BufLen
+	}
+	if c.kind != "big" && !c.failed {
+		c.trees()
 	}
 	c.compare()
 	key := strings.Join(lines, "\n")
@@ -1431,6 +1672,12 @@ func c11witnesses() [][]string {
 		{"case rich 0", "setrow " + hx("A1") + " - s" + hx("a\xffb") + " y" + hx("\xc3") + " s" + hx("ok"), "flush"},
 		// the last row of the grid, once per run (the in-memory twin materialises a million row slots)
 		{"case model 1", "setrow " + hx("A1") + " - i1", "setrow " + hx("B1048576") + " 1,60,0,0 i2 s" + hx("last") + " n C1," + hx("A1+1") + ",n", "setrow " + hx("A1048577") + " - i3", "flush"},
+		// worksheet-level settings made before NewStreamWriter: the x14 half of a data bar lives in extLst
+		{"case rich 0 x14", "setrow " + hx("A1") + " - i1 i5", "setrow " + hx("A2") + " - i7 i3", "flush"},
+		// row style x column style x cell style on the same cells (row beats column, cell beats both)
+		{"case model 3", "colstyle 2 4 1", "setrow " + hx("A1") + " 2,0,0,0 i1 i2 C3,-,i3 C0,-,i4 n i6", "setrow " + hx("B2") + " - i1 C3,-,i2 C0,-,i3 i4", "flush"},
+		// a rejected FIRST row after column widths and panes, then accepted rows
+		{"case model 0", "colwidth 1 2 80", "panes 1,0,1", "setrow " + hx("XFD1") + " - i1 i2", "setrow " + hx("A1") + " 0,2000,0,0 i1", "setrow " + hx("A1") + " - i1 i2", "setrow " + hx("A2") + " - i3", "flush"},
 		{"case model 0", "flush"},
 		{"case model 0", "merge " + hx("A1") + " " + hx("B2"), "flush"},
 	}
